@@ -9,7 +9,7 @@ from common import esc
 
 RULE = ("trace level: every restore/empty/rm run of the scenarios must issue exactly the operations of the Coq model and the Coq order "
         "monitor must accept the recorded trace (info removed only after its payload was removed, moved out or found absent); crash level: "
-        "the real command is stopped (_exit) immediately before EVERY syscall-level mutation (rename, unlink, rmdir, mkdir, open-for-write, "
+        "the real command is stopped (_exit immediately before, and KeyboardInterrupt immediately after) EVERY syscall-level mutation (rename, unlink, rmdir, mkdir, open-for-write, "
         "write, symlink, utime, chmod - including those inside shutil.rmtree and a cross-device shutil.move) of each scenario, and the "
         "on-disk state is judged: every payload under files/ that had an info still has it; an entry being restored is complete in the "
         "trash or complete at its destination; re-running the killed trash-empty/trash-rm ends in the same trash as an uninterrupted run; "
@@ -129,10 +129,12 @@ def sweep(run, scn, meta, section='crash', max_points=None):
     if max_points and len(ks) > max_points:
         ks = sorted(run.rng.sample(ks, max_points))
     scns = []
-    for k in ks:
+    plans = [(k, {'crash': k}) for k in ks] + [(k, {'interrupt': k}) for k in ks]   # SIGKILL-like and SIGINT-like
+    ks = [k for k, _ in plans]
+    for k, plan in plans:
         s = copy.deepcopy(scn)
         first = s['steps'][0]
-        first['plan'] = {'crash': k}
+        first['plan'] = plan
         if meta['cmd'] in ('empty', 'rm'):
             again = copy.deepcopy(scn['steps'][0])
         else:
